@@ -98,6 +98,14 @@ def check_hull(case, ctx):
             ctx.check(all(mbb[0][i] - 1e-9 * (big + 1024) <= e[i] <= mbb[1][i] + 1e-9 * (big + 1024) for i in range(dim)), "evalpt-outside-bbox",
                       "sampled point %r of a translated copy lies outside its bounding box %r" % (e, mbb))
         ctx.label("translated-copy")
+        if case["moved"] == 2:
+            # ... and the shape itself is moved in place after its box and samples were looked at
+            _ = obj.bbox
+            obj.delta = 0.5
+            _ = obj.evalpts
+            operations.translate(obj, vec, inplace=True)
+            P = P2
+            ctx.label("translated-in-place-after-reads")
     # bounding box of the control net contains every sampled point
     bb = obj.bbox
     ctx.check(len(bb) == 2 and len(bb[0]) == dim and len(bb[1]) == dim, "bbox-shape", "bbox = %r" % (bb,))
